@@ -30,6 +30,7 @@ def py_eq(a, b):
 
 
 _qcnt = [0]
+_pending_axioms = []      # definitional facts produced inside coerce(); drained into the path condition by the engine
 
 
 def has_ite(t):
@@ -247,6 +248,12 @@ def coerce(v, sort):
     """adapt a value to an expected sort where Python would not notice the difference"""
     if v.t is None and isinstance(v.s, SeqS) and isinstance(sort, SeqS):
         return seq_empty(sort)          # [] whose element sort comes from the context
+    if isinstance(v.s, SeqS) and v.s.elem in (NONE, ANY) and isinstance(sort, SeqS) and v.s != sort and getattr(v, "all_none", False):
+        # [None] * k used where a list of optionals / references is expected: k copies of None
+        r = fresh("nones", sort)
+        j = qvar("jn")
+        _pending_axioms.append(z3.And(seq_len(r) == seq_len(v.t), z3.ForAll([j], seq_get(r, j) == none_of(sort.elem).t, patterns=[seq_get(r, j)])))
+        return V(r, sort)
     if v.t is None and isinstance(v.s, MapS) and isinstance(sort, MapS):
         return map_empty(sort)
     if v.s == sort:
@@ -259,6 +266,11 @@ def coerce(v, sort):
         return V(ite(v.t, z3.IntVal(1), z3.IntVal(0)), INT)
     if isinstance(sort, OptS) and v.s == sort.inner:
         return V(opt_some(sort, v.t), sort)
+    if isinstance(v.s, TupS) and isinstance(sort, TupS) and len(v.s.elems) == len(sort.elems):
+        parts = [coerce(V(tup_get(v.t, i), e), se) for i, (e, se) in enumerate(zip(v.s.elems, sort.elems))]
+        return V(tup_mk(sort, *[p.t for p in parts]), sort)
+    if isinstance(sort, OptS) and isinstance(v.s, TupS) and isinstance(sort.inner, TupS):
+        return V(opt_some(sort, coerce(v, sort.inner).t), sort)
     if isinstance(v.s, OptS) and v.s.inner == sort:
         return V(opt_val(v.t), sort)
     if isinstance(sort, OptS) and isinstance(v.s, RefS) and isinstance(sort.inner, RefS):
